@@ -1,12 +1,12 @@
 package main
 
 import (
-	"regexp"
 	"fmt"
 	"go/ast"
 	"go/constant"
 	"go/types"
 	"reflect"
+	"regexp"
 	"sort"
 	"strings"
 
@@ -78,11 +78,11 @@ func jsonTextMethods(c *Ctx) []*methodSet {
 
 // types whose missing half is by design
 var c20PairingOK = map[string]string{
-	"types.Transaction:UnmarshalJSON":   "marshal-only: adds the convenience key id and output IDs; decoding uses the struct's own tags (checked under json-keys)",
-	"types.V2Transaction:UnmarshalJSON": "marshal-only: adds convenience keys; decoding uses the struct's own tags (checked under json-keys)",
-	"types.SiacoinInput:UnmarshalJSON":  "marshal-only: adds the derived address; decoding uses the struct's own tags",
-	"types.SiafundInput:UnmarshalJSON":  "marshal-only: adds the derived address; decoding uses the struct's own tags",
-	"rhp/v2.HostSettings:UnmarshalJSON": "marshal-only: decoding uses the struct's own tags (checked under json-keys)",
+	"types.Transaction:UnmarshalJSON":    "marshal-only: adds the convenience key id and output IDs; decoding uses the struct's own tags (checked under json-keys)",
+	"types.V2Transaction:UnmarshalJSON":  "marshal-only: adds convenience keys; decoding uses the struct's own tags (checked under json-keys)",
+	"types.SiacoinInput:UnmarshalJSON":   "marshal-only: adds the derived address; decoding uses the struct's own tags",
+	"types.SiafundInput:UnmarshalJSON":   "marshal-only: adds the derived address; decoding uses the struct's own tags",
+	"rhp/v2.HostSettings:UnmarshalJSON":  "marshal-only: decoding uses the struct's own tags (checked under json-keys)",
 	"rhp/v4.ProtocolVersion:MarshalJSON": "a [3]uint8 array marshals as a JSON array by default; UnmarshalJSON additionally accepts the text form",
 }
 
